@@ -67,8 +67,8 @@ pub fn enumerated(input: Input<'_>) -> ParserResult<'_, ASN1Type> {
 
 fn enumeral(input: Input<'_>) -> ParserResult<'_, EnumeralInput<'_>> {
     skip_ws_and_comments((
-        skip_ws(identifier),
-        skip_ws(opt(in_parentheses(skip_ws_and_comments(i128)))),
+        skip_ws_and_comments(identifier),
+        skip_ws_and_comments(opt(in_parentheses(skip_ws_and_comments(i128)))),
         opt(skip_ws_and_comments(char(COMMA))),
         skip_ws(opt(comment)),
     ))
